@@ -121,15 +121,18 @@ Print Assumptions C14_record_layout.
 (* ---- a stored message decodes to exactly what printf would have produced ----
    for EVERY rendering oracle render1 (libc's output for one conversion; snprintf = render, cut to n-1 bytes, NUL),
    every format covered by wf_go - literal text and directives made of flags # - + space ' I, width and precision as
-   digits or '*', length modifiers l ll z t j, conversions d i o u x X e E f F g G a A c s p %%, no NUL / QB_XC,
-   each directive rebuilt in at most MINI_FORMAT_STR_LEN - 1 characters -, ALL argument lists (a mismatching or
-   missing argument is read as the model's va_arg reads it; for matching ones this is C's behaviour), every record
-   size in which the record fits, every buf_len >= the record, every buffer size n that the text fits (< n), every
-   prior content of both buffers:  decoded text = printf_spec render1 fmt args.
-   "_partial": directives longer than 19 rebuilt characters (known finding C14-directive-longer-than-minifmt),
-   characters the scanners do not know inside a directive (h hh L q $ n m ...) and QB_XC in the format are outside
-   wf_go.  printf_spec gives a '*' the meaning "its decimal text": for a NEGATIVE precision that is not what printf
-   does (known finding C14-negative-star-precision); the monitor compares with the real vsnprintf. *)
+   digits or '*' (a negative '*' precision meaning "no precision", as in printf: fix C14-5), length modifiers
+   h hh l ll z t j (h, hh: fix C14-6), conversions d i o u x X e E f F g G a A c s p %%, no NUL / QB_XC, each directive
+   rebuilt in at most MINI_FORMAT_STR_LEN - 1 characters -, ALL argument lists (a mismatching or missing argument is
+   read as the model's va_arg reads it; for matching ones this is C's behaviour), every record size in which the record
+   fits, every buf_len >= the record, every buffer size n that the text fits (< n), every prior content of both
+   buffers:  decoded text = printf_spec render1 fmt args.
+   "_partial", outside wf_go: directives longer than 19 rebuilt characters (known finding
+   C14-directive-longer-than-minifmt); QB_XC in the format; and the characters NEITHER scanner knows inside a directive -
+   L (long double), q, $ (positional), n, m, ... : those are not rejected with an error; C14_unknown_modifier_skipped
+   below states exactly what happens (the serializer takes no argument for the directive and scans on, the decoder
+   prints the character and the rest as literal text), so such a format does not reproduce printf and misaligns every
+   later argument - they are outside the property's list of supported modifiers. *)
 Theorem C14_roundtrip_partial : forall render1 max n blen fmt args g1 g2,
   1 <= max < 4294967296 -> 1 <= n <= 4294967296 -> zlen g1 = max -> zlen g2 = n ->
   wf_go fmt PLit args = true ->
@@ -141,9 +144,46 @@ Theorem C14_roundtrip_partial : forall render1 max n blen fmt args g1 g2,
 Proof. exact roundtrip_thm. Qed.
 Print Assumptions C14_roundtrip_partial.
 
-(* the hypotheses are met by "%-+#0 '12.5lld|%zx|%ju|%ti %*d %.3s %s %c%% %p %.*f!" with twelve arguments
-   (long long extremes, '*' width and precision, a cut string, a NULL string, %c, %p, a double): a 125-byte record *)
+(* the hypotheses are met by "%-+#0 '12.5lld|%zx|%ju|%ti %*d %.3s %s %c%% %p %.*f!%.*d|%hd|%hhu" with sixteen arguments
+   (long long extremes, '*' width and precision - one of them negative -, a cut string, a NULL string, %c, %p, a double,
+   h and hh): a 154-byte record *)
 Example C14_roundtrip_covered_example :
   wf_go demo_fmt PLit demo_args = true /\
-  zlen demo_fmt + 1 + zlen (ser_data demo_fmt PLit demo_args) = 125.
+  zlen demo_fmt + 1 + zlen (ser_data demo_fmt PLit demo_args) = 154.
 Proof. exact demo_covered. Qed.
+
+(* ---- characters the scanners do not know inside a directive (L q $ n m ...) ---- *)
+Theorem C14_unknown_modifier_skipped : forall fx max c f' tl tll st,
+  classify_fx fx c = COther -> ser_go fx max (c :: f') (SDir tl tll) st = ser_go fx max f' SScan st.
+Proof. exact unknown_char_serializer. Qed.
+Theorem C14_unknown_modifier_decoder : forall snp rec blen n c f' mini fpos tl tll st,
+  classify_fx true c = COther -> fpos + 2 <= LF_MINI_FORMAT_STR_LEN ->
+  des_go true snp rec blen n (c :: f') (DDir mini fpos tl tll) st
+  = des_top true n st (fun st' => des_go true snp rec blen n f' (DScan [c]) st').
+Proof. exact unknown_char_decoder. Qed.
+Example C14_unknown_modifier_example :
+  classify_fx true 76 = COther /\ classify_fx true 113 = COther /\ classify_fx true 36 = COther /\
+  classify_fx true 110 = COther /\ classify_fx true 109 = COther /\
+  classify_fx false 104 = COther /\ classify_fx true 104 = CFlag.
+Proof. exact unknown_chars. Qed.
+
+(* fix C14-5: "%.*d|" with (-1, 5): as found the decoder asks for "%.-1d", printf (and the repaired decoder) for "%d" *)
+Example C14_asfound_negative_precision_refuted :
+  roundtrip false showfmt 64 64 f_negprec [AInt (-1); AInt 5] (repeat 238 64) (repeat 90 64)
+  <> printf_spec showfmt f_negprec PLit [AInt (-1); AInt 5].
+Proof. exact asfound_negative_precision. Qed.
+Example C14_fixed_negative_precision_example :
+  roundtrip true showfmt 64 64 f_negprec [AInt (-1); AInt 5] (repeat 238 64) (repeat 90 64)
+  = printf_spec showfmt f_negprec PLit [AInt (-1); AInt 5] /\
+  printf_spec showfmt f_negprec PLit [AInt (-1); AInt 5] = [37;100;5;0;0;0;124].
+Proof. exact fixed_negative_precision. Qed.
+
+(* fix C14-6: "v=%hd|%d" with (5, 7): as found no argument is taken for %hd *)
+Example C14_asfound_short_modifier_refuted :
+  roundtrip false echo 64 64 f_short [AInt 5; AInt 7] (repeat 238 64) (repeat 90 64)
+  <> printf_spec echo f_short PLit [AInt 5; AInt 7].
+Proof. exact asfound_short_modifier. Qed.
+Example C14_fixed_short_modifier_example :
+  roundtrip true echo 64 64 f_short [AInt 5; AInt 7] (repeat 238 64) (repeat 90 64)
+  = printf_spec echo f_short PLit [AInt 5; AInt 7].
+Proof. exact fixed_short_modifier. Qed.
